@@ -338,12 +338,25 @@ def subseed(seed, *parts):
 
 # ---------------------------------------------------------------- hypothesis driver
 
+SHRINK_BUDGET_S = 90
+
+
+class _StopSearch(Exception):
+    pass
+
+
+def stop_flag():
+    return os.path.join(scratch_root(), "STOP-violation-found")
+
+
 def hyp_search(strategy, runfn, n_examples, seed, stats, stop_on_fail=True):
     """Run `runfn(scenario, stats) -> None | str(violation)` on Hypothesis-generated scenarios.
-    On failure Hypothesis shrinks; the minimal failing scenario is appended to stats.violations."""
+    On failure Hypothesis shrinks (for at most SHRINK_BUDGET_S seconds); the minimal failing scenario is appended to stats.violations.
+    A violation found by one worker raises a flag that ends the other workers' searches (they have nothing to add to the verdict)."""
     import hypothesis
     from hypothesis import given, settings, HealthCheck, Phase
     last_fail = {}
+    flag = stop_flag()
 
     @hypothesis.seed(seed)
     @settings(max_examples=n_examples, database=None, deadline=None, derandomize=False,
@@ -351,14 +364,30 @@ def hyp_search(strategy, runfn, n_examples, seed, stats, stop_on_fail=True):
               phases=[Phase.generate, Phase.shrink], print_blob=False)
     @given(strategy)
     def prop(sc):
+        if "sc" not in last_fail:
+            if os.path.exists(flag):
+                raise _StopSearch()
+        elif time.time() - last_fail["t0"] > SHRINK_BUDGET_S:
+            # shrinking budget used up: only the best failing scenario found so far keeps failing, so the shrinker stops
+            if digest(sc) == last_fail["digest"]:
+                raise AssertionError(last_fail["msg"])
+            return
         msg = runfn(sc, stats)
         if msg:
+            last_fail.setdefault("t0", time.time())
             last_fail["sc"] = sc
             last_fail["msg"] = msg
+            last_fail["digest"] = digest(sc)
+            try:
+                open(flag, "w").close()
+            except OSError:
+                pass
             raise AssertionError(msg)
 
     try:
         prop()
+    except _StopSearch:
+        stats.cls("stopped_after_violation_elsewhere")
     except AssertionError:
         if "sc" in last_fail:
             stats.violations.append((last_fail["msg"], jsonable(last_fail["sc"])))
